@@ -613,3 +613,102 @@ def flw16_offsets_count_placed_rows(ctx):
             ctx.check('FLW-16', '%s|offset-advances-by-placed-rows' % fname, btoks == ltoks and bool(ltoks),
                       'offset grows by len() of %s; the rows placed come from %s'
                       % (sorted(ltoks), sorted(btoks)), where(site))
+
+
+# ------------------------------------------------------------------------------------ LCK-10
+def _self_acquires(ctx):
+    """body name -> {lock_id: mode} for locks acquired on `self` (first argument), transitively
+    through callees that receive the same `self`."""
+    cache = getattr(ctx, '_self_acq', None)
+    if cache is not None:
+        return cache
+    P = ctx.P
+    lm = lockmodel(ctx)
+    direct = {}
+    passes = {}
+    for b in P.fn_bodies():
+        if b.crate != 'locustdb' or not b.args:
+            continue
+        du = None
+        for blk, t in b.calls():
+            if blk.cleanup:
+                continue
+            f = t.func or ''
+            m = ACQUIRE_RE.match(f)
+            if m:
+                du = du or lm.du(b)
+                root, steps = du.access_path(t.args[0])
+                if root[0] == 'arg' and root[1] == b.args[0][0]:
+                    mode = 'r' if m.group(2) in ('read', 'try_read') else 'x'
+                    lid = lm.lock_id(b, t.args[0])
+                    d = direct.setdefault(b.name, {})
+                    d[lid] = 'x' if 'x' in (mode, d.get(lid)) else 'r'
+            elif t.args:
+                du = du or lm.du(b)
+                root, steps = du.access_path(t.args[0])
+                if root[0] == 'arg' and root[1] == b.args[0][0] and not steps:
+                    for cb in P.resolve(f, b.crate):
+                        passes.setdefault(b.name, set()).add(cb.name)
+    acq = {k: dict(v) for k, v in direct.items()}
+    changed = True
+    while changed:
+        changed = False
+        for b, cs in passes.items():
+            for c in cs:
+                for lid, mode in acq.get(c, {}).items():
+                    cur = acq.setdefault(b, {}).get(lid)
+                    new = 'x' if 'x' in (mode, cur) else 'r'
+                    if cur != new:
+                        acq[b][lid] = new
+                        changed = True
+    ctx._self_acq = acq
+    return acq
+
+
+def lck10_no_reentrant_acquisition(ctx, scope_prefixes=None):
+    ctx.rule('LCK-10', 'no method is called on `self` while a guard of one of self\'s mutexes is held '
+                       'if that method (transitively, on the same self) locks the same mutex again: '
+                       'std::sync::Mutex is not re-entrant, the thread deadlocks with itself', floor=1)
+    P = ctx.P
+    lm = lockmodel(ctx)
+    acq = _self_acquires(ctx)
+    n_sites = 0
+    for b in P.fn_bodies():
+        if b.crate != 'locustdb' or not b.args:
+            continue
+        if scope_prefixes and not b.name.startswith(tuple(scope_prefixes)):
+            continue
+        if not any(ACQUIRE_RE.match(t.func or '') for _blk, t in b.calls()):
+            continue
+        a = lm.analyse(b)
+        du = lm.du(b)
+        for bid in a['order']:
+            blk = b.blocks[bid]
+            t = blk.term
+            if blk.cleanup or t is None or t.kind != 'call' or not t.args:
+                continue
+            held = lm.may_at(b, bid, None)
+            if not held or ACQUIRE_RE.match(t.func or '') or WAIT_RE.match(t.func or ''):
+                continue
+            root, steps = du.access_path(t.args[0])
+            if not (root[0] == 'arg' and root[1] == b.args[0][0] and not steps):
+                continue
+            for cb in P.resolve(t.func, b.crate):
+                ca = acq.get(cb.name, {})
+                for h in held:
+                    lid, holder, acq_block, mode = h
+                    if lid not in ca:
+                        continue
+                    # was the held guard taken on self?
+                    at = b.blocks[acq_block].term
+                    r2, s2 = du.access_path(at.args[0])
+                    if not (r2[0] == 'arg' and r2[1] == b.args[0][0]):
+                        continue
+                    n_sites += 1
+                    deadlock = (mode == 'x' or ca[lid] == 'x')
+                    ctx.check('LCK-10', '%s|%s|%s' % (b.name, cb.name.split('::')[-1], lid), not deadlock,
+                              '%s is called while the guard of %s is held, and locks %s again on the '
+                              'same object: the worker thread deadlocks with itself; the request '
+                              'never gets an answer' % (cb.name.split('::')[-1], lid, lid), where(t))
+    ctx.ok('LCK-10', 'scan', '%d bodies with self-locks analysed, %d nested self-call sites'
+           % (len(acq), n_sites))
